@@ -9,7 +9,7 @@ import (
 	"github.com/fabiolb/fabio/internal/vp"
 )
 
-var vpEnvNames = []string{"FABIO_A_B", "fabio_a_b", "A_B", "a_B", "OTHER", "FABIO_A.B"}
+var vpEnvNames = []string{"FABIO_A_B_C", "fabio_a_b_c", "A_B_C", "a_B_c", "OTHER", "FABIO_A_B.C", "A.B.C"}
 
 // VPH_C15_env: loading never panics on any environment block, and a flag takes its value from
 // the command line, else the FABIO_-prefixed variable, else the plain variable (any letter case),
@@ -17,13 +17,13 @@ var vpEnvNames = []string{"FABIO_A_B", "fabio_a_b", "A_B", "a_B", "OTHER", "FABI
 func VPH_C15_env() {
 	fs := NewFlagSet("fabio", flag.ContinueOnError)
 	var val string
-	fs.StringVar(&val, "a.b", "default", "")
+	fs.StringVar(&val, "a.b.c", "default", "") // two dots: every dot maps to an underscore
 	var args []string
 	cmd := vp.Bool("on-cmdline")
 	cmdVal := vp.String("cmdline-value")
 	vp.Assume(!strings.HasPrefix(cmdVal, "-"))
 	if cmd {
-		args = []string{"-a.b", cmdVal}
+		args = []string{"-a.b.c", cmdVal}
 	}
 	// two environment entries: name from a set (or no '=' at all), arbitrary value
 	var environ []string
@@ -52,8 +52,8 @@ func VPH_C15_env() {
 		}
 		return v, ok
 	}
-	pv, pok := lookup("FABIO_A_B")
-	ev, eok := lookup("A_B")
+	pv, pok := lookup("FABIO_A_B_C")
+	ev, eok := lookup("A_B_C")
 	switch {
 	case cmd:
 		vp.Cover("cmdline")
@@ -68,7 +68,7 @@ func VPH_C15_env() {
 		vp.Cover("default")
 		vp.Assert(val == "default", "default-kept")
 	}
-	vp.Assert(fs.IsSet("a.b") == (cmd || pok || eok), "is-set-tracks-sources")
+	vp.Assert(fs.IsSet("a.b.c") == (cmd || pok || eok), "is-set-tracks-sources")
 }
 
 // VPH_C15_kvslice: the key/value option parser terminates without panic on every input of up
